@@ -55,6 +55,8 @@ var (
 	Deadlock bool
 	Steps    int
 	Log      []string
+	Woken    int    // goroutines taken off a Cond by Signal/Broadcast that have not resumed yet
+	AfterStep func() // called by the scheduler after every step (state observers)
 )
 
 func current() *gor { return cur }
@@ -148,6 +150,9 @@ func RunAll(fs []func()) {
 		cur = pick
 		pick.wake <- struct{}{}
 		<-back
+		if AfterStep != nil {
+			AfterStep()
+		}
 	}
 }
 
@@ -167,6 +172,9 @@ func (m *Mutex) Lock() {
 	}
 	m.owner = cur
 }
+
+// Free reports whether nobody holds the mutex.
+func (m *Mutex) Free() bool { return m.owner == nil }
 
 func (m *Mutex) Unlock() {
 	if m.owner != cur {
@@ -194,7 +202,11 @@ func (c *Cond) Wait() {
 		return mtx.owner == nil
 	})
 	mtx.owner = g
+	Woken--
 }
+
+// Parked is the number of goroutines sleeping on the condition variable.
+func (c *Cond) Parked() int { return len(c.parked) }
 
 func (c *Cond) Signal() {
 	if len(c.parked) == 0 {
@@ -208,9 +220,10 @@ func (c *Cond) Signal() {
 		}
 	}
 	c.parked = append(c.parked[:idx:idx], c.parked[idx+1:]...)
+	Woken++
 }
 
-func (c *Cond) Broadcast() { c.parked = nil }
+func (c *Cond) Broadcast() { Woken += len(c.parked); c.parked = nil }
 
 func Intn(n int) int {
 	if n <= 0 {
@@ -299,6 +312,14 @@ func TestReplay(t *testing.T) {
 		ended[i]++
 		inflight--
 	}
+	lost := false
+	vsync.AfterStep = func() {
+		// lost wake-up: the mutex is free, a runner sleeps, and more items are queued than runners are on their way
+		if !lost && w.mu.Free() && w.wait.Parked() > 0 && len(w.todo) > vsync.Woken {
+			lost = true
+			errs = append(errs, "lost-wakeup")
+		}
+	}
 	func() {
 		defer func() {
 			if r := recover(); r != nil {
@@ -363,7 +384,7 @@ def rewrite_work(src):
 INSTRUMENTED_CALLS = ('(*sync.Mutex).Lock', '(*sync.Cond).Wait', '(*sync.Map).Load', '(*sync.Map).LoadOrStore', '(*sync.Map).Store',
                       'sync/atomic.LoadUint32', 'sync/atomic.StoreUint32', 'vYield')
 
-def schedule_for_shim(v):
+def schedule_for_shim(v, mode=None):
     """Steps of the model that correspond to yield points of the shim."""
     sched = []
     choices = {}
@@ -376,6 +397,10 @@ def schedule_for_shim(v):
             choices.setdefault(g, []).append(val)
         if s.get('entry') or any(op.endswith(c) or c in op for c in INSTRUMENTED_CALLS):
             sched.append(g)
+            if mode == 'work' and 'vYield' in op:
+                # the model's step "resume after the yield inside f" runs on to (and includes) the next
+                # lock acquisition; the shim stops once more at that Lock: the goroutine is picked twice
+                sched.append(g)
     return sched, choices
 
 def replay(pid, r, tmp):
@@ -393,7 +418,7 @@ def replay(pid, r, tmp):
         open(os.path.join(d, 'vsync', 'vsync.go'), 'w').write(VSYNC)
         src = open(os.path.join(repo, 'par', 'work.go')).read()
         open(os.path.join(d, 'par', 'work.go'), 'w').write(rewrite_work(src))
-        sched, choices = schedule_for_shim(v)
+        sched, choices = schedule_for_shim(v, cfg.get('mode'))
         fc = v.get('free_choices', {})
         if cfg['mode'] == 'work':
             n = cfg['items']
@@ -403,7 +428,7 @@ def replay(pid, r, tmp):
         else:
             g = cfg['goroutines']
             kinds = [int(fc.get('CK_%d' % t, '0')) for t in range(g)]
-            test = cache_test(kinds, sched, choices)
+            test = cache_test(kinds, sched, choices, [fc.get('NR_%d' % k) == 'True' for k in range(2)])
         open(os.path.join(d, 'par', 'replay_test.go'), 'w').write(test)
         env = dict(os.environ, GOFLAGS='-mod=mod', GOPROXY='off', GOSUMDB='off', GOTOOLCHAIN='local')
         p = subprocess.run(['go', 'test', '-count=1', '-vet=off', '-timeout', '60s', '-run', 'TestReplay', '-v', './par'], cwd=d, capture_output=True, text=True, env=env)
@@ -417,7 +442,7 @@ def replay(pid, r, tmp):
     finally:
         subprocess.run(['rm', '-rf', d])
 
-def cache_test(kinds, sched, choices):
+def cache_test(kinds, sched, choices, nilres=(False, False)):
     return r'''
 package par
 
@@ -432,6 +457,7 @@ func TestReplay(t *testing.T) {
 	kinds := %s
 	vsync.Sched = %s
 	vsync.Choices = %s
+	nilres := %s
 	var c Cache
 	inv := map[int]int{}
 	cdone := map[int]bool{}
@@ -444,9 +470,17 @@ func TestReplay(t *testing.T) {
 		n := inv[k]
 		vsync.Yield()
 		cdone[k] = true
+		if nilres[k] {
+			return nil
+		}
 		return k*8 + n
 	}
-	want := func(k int) any { return k*8 + 1 }
+	want := func(k int) any {
+		if nilres[k] {
+			return nil
+		}
+		return k*8 + 1
+	}
 	body := func(g int) func() {
 		return func() {
 			switch kinds[g] {
@@ -485,4 +519,4 @@ func TestReplay(t *testing.T) {
 	}
 	fmt.Printf("REPLAY mismatches=%%d steps=%%d returned=true errors=%%v\n", vsync.Mismatch, vsync.Steps, errs)
 }
-''' % (go_lit(kinds), go_lit(sched), go_lit(choices))
+''' % (go_lit(kinds), go_lit(sched), go_lit(choices), go_lit(list(nilres)))
